@@ -39,6 +39,15 @@ type vdTape struct {
 	pushes []vdPush
 }
 
+func (tp *vdTape) hasCrc() bool {
+	for _, p := range tp.pushes {
+		if p.Kind == "crc" && p.End >= 0 {
+			return true
+		}
+	}
+	return false
+}
+
 func (tp *vdTape) signature() string {
 	var sb strings.Builder
 	for _, c := range tp.cells {
@@ -335,6 +344,8 @@ type vdCase struct {
 	Caller string `json:"caller"`
 	Fix    bool   `json:"fix"` // enclosing CRC / length fields recomputed (a consistent adversary)
 	Pos    int    `json:"pos"`
+	Dmg    bool   `json:"dmg"`  // alters a checksummed extent, or a length now disagrees with the data
+	RunVer int    `json:"runver"` // >= 0: decode with this version instead of the one the bytes were written in
 	inner  []byte
 }
 
@@ -455,6 +466,7 @@ func vdCases(s *vdSubject, tp *vdTape, thorough bool, rnd *rand.Rand) []vdCase {
 	var out []vdCase
 	seen := map[string]bool{string(s.valid): true}
 	add := func(c vdCase) {
+		c.RunVer = -1
 		k := string(c.inner)
 		if seen[k] {
 			return
@@ -470,7 +482,8 @@ func vdCases(s *vdSubject, tp *vdTape, thorough bool, rnd *rand.Rand) []vdCase {
 		}
 		for _, v := range vdCellValues(c) {
 			raw := vdSplice(valid, c.Off, c.W, v.enc)
-			add(vdCase{Kind: "cell", Trig: v.trig, Prim: c.Prim, Caller: c.Caller, Pos: c.Off, inner: raw})
+			add(vdCase{Kind: "cell", Trig: v.trig, Prim: c.Prim, Caller: c.Caller, Pos: c.Off, inner: raw,
+				Dmg: c.Length || vdInsideCrc(tp, c.Off)})
 			fx := append([]byte(nil), raw...)
 			if fx, ok := vdFixup(tp, fx, c.Off, len(v.enc)-c.W); ok {
 				add(vdCase{Kind: "cell", Trig: v.trig, Prim: c.Prim, Caller: c.Caller, Fix: true, Pos: c.Off, inner: fx})
@@ -495,7 +508,7 @@ func vdCases(s *vdSubject, tp *vdTape, thorough bool, rnd *rand.Rand) []vdCase {
 	}
 	sort.Ints(cl)
 	for _, k := range cl {
-		add(vdCase{Kind: "trunc", Trig: "truncate", Prim: "-", Caller: "-", Pos: k, inner: append([]byte(nil), valid[:k]...)})
+		add(vdCase{Kind: "trunc", Trig: "truncate", Prim: "-", Caller: "-", Pos: k, Dmg: true, inner: append([]byte(nil), valid[:k]...)})
 	}
 	// 3. bit flips inside CRC-covered extents (and in the CRC field itself)
 	for _, p := range tp.pushes {
@@ -510,11 +523,11 @@ func vdCases(s *vdSubject, tp *vdTape, thorough bool, rnd *rand.Rand) []vdCase {
 		for pos := p.Start; pos < p.End; pos += step {
 			b := append([]byte(nil), valid...)
 			b[pos] ^= 1 << uint(pos%8)
-			add(vdCase{Kind: "crcflip", Trig: "bitflip", Prim: "-", Caller: "-", Pos: pos, inner: b})
+			add(vdCase{Kind: "crcflip", Trig: "bitflip", Prim: "-", Caller: "-", Pos: pos, Dmg: true, inner: b})
 		}
 		b := append([]byte(nil), valid...)
 		b[p.End-1] ^= 0x80
-		add(vdCase{Kind: "crcflip", Trig: "bitflip", Prim: "-", Caller: "-", Pos: p.End - 1, inner: b})
+		add(vdCase{Kind: "crcflip", Trig: "bitflip", Prim: "-", Caller: "-", Pos: p.End - 1, Dmg: true, inner: b})
 	}
 	// 4. bit flips in every cell header (sign bit of the first byte, low bit of the last)
 	for _, c := range tp.cells {
@@ -525,7 +538,13 @@ func vdCases(s *vdSubject, tp *vdTape, thorough bool, rnd *rand.Rand) []vdCase {
 			if vdInsideCrc(tp, f[0]) {
 				k = "crcflip"
 			}
-			add(vdCase{Kind: k, Trig: "bitflip", Prim: c.Prim, Caller: c.Caller, Pos: f[0], inner: b})
+			add(vdCase{Kind: k, Trig: "bitflip", Prim: c.Prim, Caller: c.Caller, Pos: f[0], Dmg: k == "crcflip", inner: b})
+		}
+	}
+	// 5. the unaltered bytes decoded as another version of the same message
+	for _, v := range s.vers {
+		if v != s.ver && s.runAt != nil {
+			out = append(out, vdCase{Kind: "vermix", Trig: "version", Prim: "-", Caller: "-", Pos: int(v), RunVer: int(v), inner: valid})
 		}
 	}
 	if !thorough {
@@ -538,9 +557,9 @@ func vdCases(s *vdSubject, tp *vdTape, thorough bool, rnd *rand.Rand) []vdCase {
 		if vdInsideCrc(tp, pos) {
 			k = "crcflip"
 		}
-		add(vdCase{Kind: k, Trig: "bitflip", Prim: "-", Caller: "-", Pos: pos, inner: b})
+		add(vdCase{Kind: k, Trig: "bitflip", Prim: "-", Caller: "-", Pos: pos, Dmg: k == "crcflip", inner: b})
 	}
-	// 5. seeded random damage (thorough only; cannot be attributed to a trigger class)
+	// 6. seeded random damage (thorough only; cannot be attributed to a trigger class)
 	var mut []vdCell
 	for _, c := range tp.cells {
 		if vdMutable(c) {
